@@ -407,6 +407,76 @@ func checkC11(p *Program, r *Report) {
 
 	c11pack(p, r, nb, nf)
 	c11sibling(p, r, nb, nf)
+	c11accepts(p, r, ext)
+}
+
+// c11accepts: the extractor refuses a message only for the reasons the
+// specification lists; any further rejection rule refuses some valid proof.
+// A rejecting condition must compare *atomic* message quantities (a count
+// field, uint32(len(field)), the exported limit, the failure latch), test a
+// count against 0, or be the ⌈x/8⌉ comparison of consumed vs. available bits.
+func c11accepts(p *Program, r *Report, ext *ssa.Function) {
+	recv := ssa.Value(ext.Params[0])
+	atomic := func(v ssa.Value) bool {
+		v = stripIntConv(v)
+		if _, base, ok := fieldLoad(v); ok && base == recv {
+			return true
+		}
+		if c, ok := v.(*ssa.Call); ok && isBuiltin(&c.Call, "len") {
+			_, base, ok := fieldLoad(c.Call.Args[0])
+			return ok && base == recv
+		}
+		if u, ok := v.(*ssa.UnOp); ok && u.Op == token.MUL {
+			if g, ok := u.X.(*ssa.Global); ok && g.Object() != nil && g.Object().Exported() {
+				return true
+			}
+		}
+		return false
+	}
+	n := 0
+	for _, b := range ext.Blocks {
+		iff, ok := lastInstr(b).(*ssa.If)
+		if !ok {
+			continue
+		}
+		rejEdge := -1
+		for k, s := range b.Succs {
+			if ret, ok := lastInstr(s).(*ssa.Return); ok && len(s.Instrs) == 1 && len(ret.Results) == 1 && isNilConst(ret.Results[0]) {
+				rejEdge = k
+			}
+		}
+		if rejEdge < 0 {
+			continue
+		}
+		n++
+		okC, how := false, "rejection on "+exprString(iff.Cond)
+		switch c := iff.Cond.(type) {
+		case *ssa.UnOp:
+			if _, base, ok := fieldLoad(c); ok && base == recv {
+				okC, how = true, "failure latch"
+			}
+		case *ssa.BinOp:
+			if k, isK := constInt(c.Y); isK {
+				okC = k == 0 && atomic(c.X) && (c.Op == token.EQL || c.Op == token.NEQ)
+				how = "count compared with 0"
+			} else if x1, ok1 := isCeilDiv8(c.X); ok1 {
+				x2, ok2 := isCeilDiv8(c.Y)
+				okC = ok2 && atomic(x1) && atomic(x2)
+				how = "⌈bits used/8⌉ against ⌈bits/8⌉"
+			} else {
+				okC = atomic(c.X) && atomic(c.Y)
+				how = "comparison of message quantities " + exprString(c.X) + " " + c.Op.String() + " " + exprString(c.Y)
+			}
+		}
+		if !okC {
+			how = "an additional rejection rule (" + exprString(iff.Cond) + "): some valid, canonical proofs may be refused"
+		}
+		r.Add("C11.accepts", FnName(ext), fmt.Sprintf("rejection #%d is one of the specified sanity checks", n), iff.Cond.Pos(), okC, how)
+	}
+	if n > 7 {
+		r.Add("C11.accepts", FnName(ext), "no more rejection rules than the specification lists", ext.Pos(), false, fmt.Sprintf("%d rejecting tests, 7 specified", n))
+	}
+	r.Floor("C11.accepts", 7)
 }
 
 // anonymise renders a term with struct fields replaced by their types.
